@@ -29,6 +29,9 @@ type lenCase struct {
 	// was turned into the library value (see order_test.go)
 	Order     []orderSlot `json:",omitempty"`
 	LowerOnly bool        `json:",omitempty"` // Plain, but the equality is not asserted (known finding empty-name-counted)
+	// text fields whose string is replaced by one in the caller's spelling after the model message was
+	// turned into the library value (see text_test.go)
+	Text []textSlot `json:",omitempty"`
 }
 
 var handWritten = map[uint16]bool{wm.TNSEC: true, wm.TNSEC3: true, wm.TCSYNC: true, wm.TOPT: true, wm.TSVCB: true, wm.THTTPS: true,
@@ -43,13 +46,22 @@ func typeName(t uint16) string {
 
 func checkLen(c lenCase) error {
 	m := c.M
+	// a fresh library value of the case, as the caller built it: never packed, never measured
+	mkLib := func() (*dns.Msg, error) {
+		restore := wm.Spelling(c.Spell)
+		lib, err := wm.MsgToLib(m, c.Compress)
+		restore()
+		return lib, err
+	}
 	w, err := wm.Encode(m)
-	if err != nil || (len(w) > 65535 && !c.Compress) {
+	if err != nil {
+		// the model has no wire form for it: the library's verdict is observed, measured first (header_test.go)
+		return checkObserved(c, mkLib)
+	}
+	if len(w) > 65535 && !c.Compress {
 		return nil // not packable: outside the domain
 	}
-	restore := wm.Spelling(c.Spell)
-	lib, err := wm.MsgToLib(m, c.Compress)
-	restore()
+	lib, err := mkLib()
 	if err != nil {
 		return nil
 	}
@@ -57,13 +69,21 @@ func checkLen(c lenCase) error {
 		pbt.Class("alternative-representation")
 	}
 	exact := c.Plain && !c.LowerOnly
-	// The model has no verdict on a message whose names were emptied or whose lists were rearranged
-	// (see empty_test.go, order_test.go): "can be packed" is observed. Such a message holds no more
-	// octets than the packable message it was made from, so it is within every limit; the question
+	// The model has no verdict on a message whose names were emptied, whose lists were rearranged or
+	// whose texts stand in the caller's spelling (see empty_test.go, order_test.go, text_test.go): "can
+	// be packed" is observed. Such a message holds no more octets than the packable message it was made
+	// from (plus the characters of the new texts), so it is within every limit; the question
 	// whether the packer takes it at all is not C08's: a refusal that a roomy caller's buffer does
 	// not cure puts it outside the domain, one that it cures was for lack of room.
+	// The observations pack the value; the case itself then runs on a value built anew (below), so that
+	// every prediction is taken on a value that was never packed.
 	modelLen := len(w)
+	textChars := 0
+	for _, s := range c.Text {
+		textChars += len(s.S)
+	}
 	observe := func(what string) (uncompressed []byte, verdict error, refused bool) {
+		roomy := modelLen + 64 + textChars
 		packUnder := func(compress bool) ([]byte, error, bool) {
 			lib.Compress = compress
 			defer func() { lib.Compress = c.Compress }()
@@ -71,8 +91,8 @@ func checkLen(c lenCase) error {
 			if err == nil {
 				return out, nil, false
 			}
-			if _, e2 := lib.PackBuffer(make([]byte, modelLen+64)); e2 == nil {
-				return nil, pbt.Errf("Pack ran out of room on a message with %s (Len()=%d, compress=%v): %v - the same message packs into a caller's buffer of %d octets", what, lib.Len(), compress, err, modelLen+64), false
+			if _, e2 := lib.PackBuffer(make([]byte, roomy)); e2 == nil {
+				return nil, pbt.Errf("Pack ran out of room on a message with %s (Len()=%d, compress=%v): %v - the same message packs into a caller's buffer of %d octets", what, lib.Len(), compress, err, roomy), false
 			}
 			return nil, nil, true
 		}
@@ -102,6 +122,32 @@ func checkLen(c lenCase) error {
 			}
 		}
 	}
+	texted := false
+	var textCl []string
+	if len(c.Text) > 0 {
+		n, _, plain, cl, desc, undo := applyText(lib, &m, c.Text)
+		if n > 0 {
+			out, verdict, refused := observe("text in the caller's spelling (" + strings.TrimSpace(desc) + ")")
+			if verdict != nil {
+				return verdict
+			}
+			textCl = cl
+			if refused {
+				// outside the domain (a text over 255 octets); the case goes on with the model's texts
+				undo()
+				textCl = append(textCl, "caller-text-refused")
+			} else {
+				texted = true
+				textCl = append(textCl, "caller-text-packed")
+				w = out
+				if !plain {
+					exact = false // a backslash, a quote, an unprintable octet: the text is not escape-free
+				} else if exact {
+					textCl = append(textCl, "caller-text-exactness-asserted")
+				}
+			}
+		}
+	}
 	blanked := false
 	if len(c.Blank) > 0 {
 		names, zeroed := applyBlank(lib, &m, c.Blank)
@@ -118,6 +164,32 @@ func checkLen(c lenCase) error {
 		}
 		w = out
 	}
+	// the value the case runs on: built anew with the arrangements that were taken, never packed
+	rebuild := func() *dns.Msg {
+		x, err := mkLib()
+		if err != nil {
+			return nil
+		}
+		if reordered {
+			applyOrder(x, &m, c.Order)
+		}
+		if texted {
+			applyText(x, &m, c.Text)
+		}
+		if blanked {
+			applyBlank(x, &m, c.Blank)
+		}
+		return x
+	}
+	if reordered || texted || blanked {
+		if lib = rebuild(); lib == nil {
+			return nil
+		}
+	}
+	// measure first, pack second
+	lib.Compress = false
+	ulFirst := lib.Len()
+	lib.Compress = c.Compress
 	predicted := lib.Len()
 	p, err := lib.Pack()
 	if err != nil {
@@ -154,6 +226,13 @@ func checkLen(c lenCase) error {
 		}
 	}
 	classes = append(classes, orderCl...)
+	classes = append(classes, textCl...)
+	if texted {
+		classes = append(classes, "caller-text")
+	}
+	if m.Rcode > 0xF {
+		classes = append(classes, rcodeClass(m.Rcode, true))
+	}
 	if len(w) > 16384 {
 		classes = append(classes, "beyond-16384")
 	}
@@ -163,17 +242,23 @@ func checkLen(c lenCase) error {
 	pbt.Note(append(p, byte(len(classes))), hasPtr || special, classes...)
 
 	if predicted < len(p) {
-		return pbt.Errf("Len()=%d under-estimates Pack()=%d octets (compress=%v)%s", predicted, len(p), c.Compress, orderNote(reordered))
+		return pbt.Errf("Len()=%d under-estimates Pack()=%d octets (compress=%v)%s%s", predicted, len(p), c.Compress, orderNote(reordered), textNote(texted))
 	}
 	if exact && predicted != len(p) {
-		return pbt.Errf("escape-free message of the common types: Len()=%d but Pack() produced %d octets (compress=%v)%s", predicted, len(p), c.Compress, blankNote(blanked))
+		return pbt.Errf("escape-free message of the common types: Len()=%d but Pack() produced %d octets (compress=%v)%s%s", predicted, len(p), c.Compress, blankNote(blanked), textNote(texted))
+	}
+	// ... and the prediction of the value that has been packed (packing may touch the value)
+	if after := lib.Len(); after < len(p) {
+		return pbt.Errf("Len()=%d, taken after Pack, under-estimates Pack()=%d octets (compress=%v)%s%s", after, len(p), c.Compress, orderNote(reordered), textNote(texted))
+	} else if exact && after != len(p) {
+		return pbt.Errf("escape-free message of the common types: Len()=%d after Pack, which produced %d octets (compress=%v)%s%s", after, len(p), c.Compress, blankNote(blanked), textNote(texted))
 	}
 	if !c.Compress && !bytes.Equal(p, w) {
 		return nil // layout errors are C01's business
 	}
 	// single records
 	var libRecs []dns.RR
-	if blanked || reordered {
+	if blanked || reordered || texted {
 		libRecs = append(append(append(libRecs, lib.Answer...), lib.Ns...), lib.Extra...)
 	}
 	for ri, r := range m.AllRecs() {
@@ -188,15 +273,19 @@ func checkLen(c lenCase) error {
 		if err != nil {
 			continue
 		}
-		buf := make([]byte, len(rw)+16)
+		buf := make([]byte, len(rw)+16+textChars)
+		lFirst := dns.Len(rr)
 		off, err := dns.PackRR(rr, buf, 0, nil, false)
 		if err != nil {
 			return pbt.Errf("PackRR(%s) failed: %v", typeName(r.Type), err)
 		}
+		if lFirst < off {
+			return pbt.Errf("Len(rr)=%d, taken before PackRR, under-estimates the %d packed octets of a %s record%s%s", lFirst, off, typeName(r.Type), orderNote(reordered), textNote(texted))
+		}
 		if l := dns.Len(rr); l < off {
-			return pbt.Errf("Len(rr)=%d under-estimates the %d packed octets of a %s record%s", l, off, typeName(r.Type), orderNote(reordered))
+			return pbt.Errf("Len(rr)=%d under-estimates the %d packed octets of a %s record%s%s", l, off, typeName(r.Type), orderNote(reordered), textNote(texted))
 		} else if exact && l != off {
-			return pbt.Errf("Len(rr)=%d but a plain %s record packs to %d octets%s", l, typeName(r.Type), off, blankNote(blanked))
+			return pbt.Errf("Len(rr)=%d but a plain %s record packs to %d octets%s%s", l, typeName(r.Type), off, blankNote(blanked), textNote(texted))
 		}
 	}
 	// Text fields in a spelling the packer may or may not accept (base64 without its padding, hex in
@@ -259,11 +348,14 @@ func checkLen(c lenCase) error {
 	lib.Compress = false
 	ul := lib.Len()
 	lib.Compress = c.Compress
-	if ul < len(w) {
-		return pbt.Errf("uncompressed Len()=%d under-estimates the %d uncompressed octets", ul, len(w))
+	if ulFirst < len(w) {
+		return pbt.Errf("uncompressed Len()=%d, taken before the first Pack, under-estimates the %d uncompressed octets%s", ulFirst, len(w), textNote(texted))
 	}
-	if exact && ul != len(w) {
-		return pbt.Errf("plain message: uncompressed Len()=%d, uncompressed size %d%s", ul, len(w), blankNote(blanked))
+	if ul < len(w) {
+		return pbt.Errf("uncompressed Len()=%d under-estimates the %d uncompressed octets%s", ul, len(w), textNote(texted))
+	}
+	if exact && (ul != len(w) || ulFirst != len(w)) {
+		return pbt.Errf("plain message: uncompressed Len()=%d (%d before the first Pack), uncompressed size %d%s%s", ul, ulFirst, len(w), blankNote(blanked), textNote(texted))
 	}
 	// Buffers of every interesting length (around the packed size, between the packed and the
 	// uncompressed size, around the uncompressed size) and with spare capacity behind their length
@@ -281,11 +373,15 @@ func checkLen(c lenCase) error {
 	}
 	arena := make([]byte, ul+400)
 	dirtyTemplate := bytes.Repeat([]byte{0xA5}, len(arena))
-	for _, l := range lens {
+	for li, l := range lens {
 		if l < 0 {
 			continue
 		}
-		caps := []int{l, max(l, cl+1), max(l, ul+1), ul + 400}
+		// capacities: none to spare, plenty, and in turn room for the packed / for the uncompressed size
+		caps := []int{l, max(l, cl+1), ul + 400}
+		if (int(m.ID)+li)%2 == 0 {
+			caps[1] = max(l, ul+1)
+		}
 		if ul > 4096 {
 			caps = []int{l, ul + 400}
 		}
@@ -302,6 +398,28 @@ func checkLen(c lenCase) error {
 			if l > ul && len(pb) > 0 && &pb[0] != &buf[0] {
 				return pbt.Errf("PackBuffer did not write into the caller's buffer of %d octets (uncompressed length %d, predicted %d, compress=%v)", l, len(w), ul, c.Compress)
 			}
+		}
+	}
+	// the placement clause as a caller meets it: a value that was never packed, a buffer sized by its
+	// uncompressed Len(), then PackBuffer (all calls above ran on a value that had been packed before)
+	if ul <= 4096 || m.ID%4 == 0 {
+		fresh := rebuild()
+		if fresh == nil {
+			return nil
+		}
+		fresh.Compress = false
+		ful := fresh.Len()
+		fresh.Compress = c.Compress
+		buf := bytes.Repeat([]byte{0xA5}, ful+1+int(m.ID%11))
+		pb, err := fresh.PackBuffer(buf)
+		if err != nil {
+			return pbt.Errf("PackBuffer(buffer of %d octets) failed on a value that was never packed before: %v (uncompressed Len() %d, compress=%v)", len(buf), err, ful, c.Compress)
+		}
+		if !bytes.Equal(pb, p) {
+			return pbt.Errf("PackBuffer(buffer of %d octets) on a value that was never packed before produced other octets (%d) than Pack on a value built alike (%d)", len(buf), len(pb), cl)
+		}
+		if len(pb) > 0 && &pb[0] != &buf[0] {
+			return pbt.Errf("PackBuffer did not write a value that was never packed before into the caller's buffer of %d octets, which is larger than its uncompressed Len()=%d (compress=%v)", len(buf), ful, c.Compress)
 		}
 	}
 	return nil
@@ -345,7 +463,7 @@ func genAny(t *rapid.T) lenCase {
 	if rapid.IntRange(0, 3).Draw(t, "respell") == 0 {
 		c.Spell = rapid.Uint64().Draw(t, "spell")
 	}
-	return withOrder(t, withBlank(t, c))
+	return withHeader(t, withText(t, withOrder(t, withBlank(t, c))))
 }
 
 func genPlain(t *rapid.T) lenCase {
@@ -382,7 +500,7 @@ func genPlain(t *rapid.T) lenCase {
 			m.Ex = append(m.Ex, big...)
 		}
 	}
-	return withBlank(t, lenCase{M: m, Compress: rapid.Bool().Draw(t, "compress"), Plain: true})
+	return withHeader(t, withText(t, withBlank(t, lenCase{M: m, Compress: rapid.Bool().Draw(t, "compress"), Plain: true})))
 }
 
 // records whose own fields straddle the 16384-octet pointer limit: a filler puts the start of a
@@ -439,7 +557,7 @@ func genBoundary(t *rapid.T) lenCase {
 	}
 	_, plain := map[uint16]bool{wm.TNS: true, wm.TCNAME: true, wm.TSOA: true, wm.TMX: true, wm.TPTR: true, wm.TMINFO: true, wm.TSRV: true, wm.TDNAME: true,
 		wm.TRP: true, wm.TAFSDB: true, wm.TKX: true, wm.TNAPTR: true}[typ]
-	return withOrder(t, withBlank(t, lenCase{M: m, Compress: rapid.IntRange(0, 3).Draw(t, "compress") != 0, Plain: plain}))
+	return withHeader(t, withText(t, withOrder(t, withBlank(t, lenCase{M: m, Compress: rapid.IntRange(0, 3).Draw(t, "compress") != 0, Plain: plain}))))
 }
 
 // genSuffixDense: names made of very many one-octet labels - every label start is a possible
